@@ -32,9 +32,10 @@ type termInfo struct {
 }
 
 type fnA struct {
-	B    *Bound
-	fn   *ssa.Function
-	name string
+	condDepth int
+	B         *Bound
+	fn        *ssa.Function
+	name      string
 
 	terms   []termInfo
 	termIdx map[string]int
